@@ -638,7 +638,7 @@ func RunGov(opt GovOptions) (*Result, error) {
 	var allOps, allImpl []string
 	var caseOf []int
 	var caseHL = map[int][]string{}
-	floatSweep(res)
+	tallyRuleSweep(res)
 	only := os.Getenv("OLH_GOV_ONLY")
 	for c := 0; c < opt.Histories; c++ {
 		r := root.Fork()
@@ -711,27 +711,32 @@ func diffSections(impl, model string, implSide bool) string {
 	return strings.Join(out, " | ")
 }
 
-// floatSweep validates the stated float assumptions of ResultSoFar on small integers: the pass
-// comparison is exact; the fail comparison `(1.0 - no/total) < pass/100` is NOT at exact
-// boundaries for some percentages (counted, and exhibited on the application by the boundary family).
-func floatSweep(res *Result) {
+// tallyRuleSweep evaluates the two integer decisions of ResultSoFar exactly as the Go code writes
+// them (int64) against the rationals yes/total >= pass/100 and (total-no)/total < pass/100
+// (math/big) on all small inputs, and records for reference where the float64 expressions the
+// code used before the repair aed50ba differ from them.
+func tallyRuleSweep(res *Result) {
 	for pass := int64(1); pass <= 100; pass++ {
 		pp := float64(pass) / 100.0
+		rp := big.NewRat(pass, 100)
 		for total := int64(1); total <= 120; total++ {
 			for x := int64(0); x <= total; x++ {
+				passed := x*100 >= pass*total
+				failed := (total-x)*100 < pass*total
+				if passed != (big.NewRat(x, total).Cmp(rp) >= 0) || failed != (big.NewRat(total-x, total).Cmp(rp) < 0) {
+					res.Counters["tally_rule_differs_from_rationals"]++
+				}
 				q := float64(x) / float64(total)
-				if (q >= pp) != (x*100 >= pass*total) {
-					res.Counters["float_pass_comparison_inexact"]++
+				if ((1.0-q) < pp) != failed || (q >= pp) != passed {
+					res.Counters["old_float_expression_differs"]++
 				}
-				if ((1.0 - q) < pp) != ((total-x)*100 < pass*total) {
-					res.Counters["float_fail_comparison_inexact"]++
-					if pass >= 51 && pass <= 80 {
-						res.Counters["float_fail_comparison_inexact_in_valid_pass_range"]++
-					}
-				}
-				res.Counters["float_sweep_points"]++
+				res.Counters["tally_rule_sweep_points"]++
 			}
 		}
+	}
+	if n := res.Counters["tally_rule_differs_from_rationals"]; n > 0 {
+		res.DisagreementCount++
+		res.Disagreements = append(res.Disagreements, Disagreement{Kind: "tally-rule", Op: "sweep", Impl: fmt.Sprintf("%d points differ from the rationals", n), Model: "0"})
 	}
 }
 
@@ -768,7 +773,7 @@ func runGovHistory(opt GovOptions, c int, r *rng.R, res *Result, rec *govRecordi
 		p.Witnesses = 0
 		switch {
 		case c%8 == 5:
-			// boundary family: powers 33/33/34, pass percentage 67 (a valid value: 51..80)
+			// regression family (repaired KF-C14-2): powers 33/33/34, pass percentage 67
 			pass = 67
 			p.NVals, p.NCandidates, p.TopValidators, p.MinSelfDeleg = 3, 1, 4, 1
 			p.GenesisStake = []int64{33, 33, 34}
@@ -835,10 +840,15 @@ func runGovHistory(opt GovOptions, c int, r *rng.R, res *Result, rec *govRecordi
 			rs := govResOf(tr)
 			res.Distribution[t.Kind+" "+strings.TrimPrefix(rs, "res ")]++
 			if t.Op != "" {
-				// fee actually charged: price x gas used
+				// fee actually charged: price x gas used. A failed transaction does not report its gas:
+				// the price of one gas unit is a lower bound of what the fee step tried to charge,
+				// enough for the model to reproduce a fee failure of an (almost) empty account
 				fee := new(big.Int)
-				if tr.Code == 0 && t.Fee {
-					fee.Mul(big.NewInt(govFeePrice), big.NewInt(tr.GasUsed))
+				if t.Fee {
+					fee.SetInt64(govFeePrice)
+					if tr.Code == 0 {
+						fee.Mul(fee, big.NewInt(tr.GasUsed))
+					}
 				}
 				op := t.Op
 				if t.Fee {
@@ -848,6 +858,19 @@ func runGovHistory(opt GovOptions, c int, r *rng.R, res *Result, rec *govRecordi
 				h.ops = append(h.ops, in)
 				h.impl = append(h.impl, out)
 				mon.step(height, t, tr.Code == 0, pre, post, watch)
+				// the two repaired defects as scripted regression scenarios
+				switch {
+				case script == "s19" && height == 4 && t.Kind == "EXPIRE_VOTES":
+					res.Counters["regression_outsider_expiry_runs"]++
+					if rs != "res err:statusNotVoting" || itemSig(pre.Items[t.PID]) != itemSig(post.Items[t.PID]) || balLine(pre, watch) != balLine(post, watch) {
+						res.Hit("regression-outsider-expiry-not-refused", c, fmt.Sprintf("height %d: %s; %s -> %s", height, rs, itemSig(pre.Items[t.PID]), itemSig(post.Items[t.PID])), h.hl.Lines)
+					}
+				case script == "boundary" && height == 5 && t.Kind == "PROPOSAL_VOTE":
+					res.Counters["regression_boundary_vote_runs"]++
+					if st, p, _ := post.Items[t.PID].where(); rs != "res ok" || p == nil || st != 0 || p.Status != stVoting {
+						res.Hit("regression-boundary-vote-decided", c, fmt.Sprintf("height %d: %s; %s", height, rs, describe(post.Items[t.PID])), h.hl.Lines)
+					}
+				}
 			}
 			if tr.Code == 0 {
 				okTxs = append(okTxs, t)
